@@ -241,7 +241,12 @@ fn completions(o: &Outcome) -> Vec<(u64, usize)> {
     let mut out = vec![];
     for (e, kind, after) in o.mgr() {
         if kind == "PieceDone" {
-            if let Some(i) = prev.as_ref().and_then(|p| p.peers.iter().find(|x| x.addr == e.addr)).and_then(|x| x.piece_index) {
+            // which piece: the one whose status turned to Have with this event; if none did (a piece
+            // finished a second time) the piece the manager had assigned to that peer
+            let newly: Vec<usize> = match &prev { Some(p) => (0..after.statuses.len()).filter(|i| p.statuses[*i] != Status::Have && after.statuses[*i] == Status::Have).collect(), None => vec![] };
+            if !newly.is_empty() {
+                for i in newly { out.push((e.seq, i)); }
+            } else if let Some(i) = prev.as_ref().and_then(|p| p.peers.iter().find(|x| x.addr == e.addr)).and_then(|x| x.piece_index) {
                 if after.statuses[i] == Status::Have { out.push((e.seq, i)); }
             }
         }
